@@ -1110,3 +1110,487 @@ def _eval_configs(acc, h, layout, configs, steps, mode, work, refcache, standalo
             sink = acc if step in steps else Acc()  # the extra fresh run of a replay only feeds fresh_seen
             judge(sink, h, layout, config, step, mode, A, ref, explain,
                   rp(case_config, h.dag, layout, config, step, mode), ref_kind, fresh_seen)
+
+
+# --------------------------------------------------------------------------- one history (batch)
+
+MAIN_LAYOUTS = ("loose", "pack1", "pack2", "mixed")
+EXTRA_LAYOUTS = ("pack2o", "pack1-v1", "pack1-v3")
+DEFAULT = {"cg": "d", "midx": "d", "bitmap": "d", "prefs": "d"}
+
+
+def all_subsets(variant_of):
+    """Every non-empty subset of the four accelerators with the given writer variants."""
+    out = []
+    for k in range(1, len(ACCELS) + 1):
+        for sub in E.subsets(ACCELS, k, k):
+            out.append(tuple((a, variant_of[a]) for a in sub))
+    return out
+
+
+def plan_for(layout, tier):
+    """[(mode, configs, steps)] for one layout.  quick and thorough enumerate the same structure;
+    thorough adds the C-git / variant writers under every step and the live mode for more members."""
+    q = tier == "quick"
+    singles_d = [((a, DEFAULT[a]),) for a in ACCELS]
+    variants = [((a, v),) for a in ACCELS for v in WRITERS[a] if v != DEFAULT[a]]
+    multi_d = [c for c in all_subsets(DEFAULT) if len(c) > 1]
+    full_d = tuple((a, DEFAULT[a]) for a in ACCELS)
+    full_g = tuple((a, "g") for a in ACCELS)
+    steps = list(STEPS)
+    plan = []
+    if layout in MAIN_LAYOUTS:
+        # fresh: every subset (dulwich writers), every writer variant alone, everything by C git
+        plan.append(("fresh", [()] + singles_d + variants + multi_d + ([full_g] if layout in ("pack1", "pack2") else []), [None]))
+        # stale: every single accelerator (every writer variant in thorough) and the full sets x every step
+        st_cfg = [()] + singles_d + [full_d]
+        if q:
+            st_cfg += [(("cg", "g"),), (("prefs", "g"),)]
+        else:
+            st_cfg += variants + ([full_g] if layout in ("pack1", "pack2") else [])
+        plan.append(("fresh", st_cfg, steps))
+        # live: long-lived Repo object
+        lv_cfg = [()] + singles_d + ([] if q else [full_d, (("cg", "g"),), (("midx", "g"),), (("prefs", "g"),)])
+        plan.append(("live", lv_cfg, [None] + steps))
+    else:
+        cfgs = [(), (("midx", "d"),), (("bitmap", "d"),)] + ([] if q else [(("midx", "g"),), (("cg", "d"),), full_d])
+        plan.append(("fresh", cfgs, [None] + (["commit", "delref+gc", "repack"] if q else steps)))
+        plan.append(("live", [(), (("bitmap", "d"),)], [None]))
+    return plan
+
+
+def eval_history(acc: Acc, dag, tier, layouts):
+    h = history(dag)
+    work = fresh_dir("c14h")
+    refcache = {}
+    try:
+        for layout in layouts:
+            if not layout_applicable(h, layout):
+                continue
+            for mode, configs, steps in plan_for(layout, tier):
+                _eval_configs(acc, h, layout, configs, steps, mode, work, refcache)
+        acc.count("histories")
+        acc.count("history_layouts", len([L for L in layouts if layout_applicable(h, L)]))
+    finally:
+        _SNAP.clear()
+        rmtree(work)
+
+
+# --------------------------------------------------------------------------- foreign accelerator files
+
+FIXTURES = (
+    # (name, dag, salt, layout)
+    ("chain3", ((), (0,), (1,)), b"", "pack1"),
+    ("chain3-other-content", ((), (0,), (1,)), b"alt", "pack1"),
+    ("diamond4-2packs", ((), (0,), (0,), (1, 2)), b"", "pack2"),
+    ("fork3", ((), (0,), (0,)), b"", "pack1"),
+    ("chain2-prefix-of-chain3", ((), (0,)), b"", "pack1"),
+    ("chain3-2packs", ((), (0,), (1,)), b"", "pack2"),
+)
+
+
+def _fixture(idx, work, writer):
+    """Build fixture repo idx with all object-store accelerators written by `writer` ('d' | 'g');
+    returns (history, path)."""
+    name, dag, salt, layout = FIXTURES[idx]
+    h = history(dag, salt)
+    p = os.path.join(work, "fx%d%s" % (idx, writer))
+    if not os.path.exists(p):
+        build_layout(h, layout, p)
+        if writer == "d":
+            write_config(p, (("cg", "d"), ("midx", "d"), ("bitmap", "d")))
+        else:
+            write_config(p, (("cg", "g"), ("midx", "g")))
+    return h, p
+
+
+def _packs(path):
+    pd = os.path.join(path, "objects", "pack")
+    return sorted(f[:-5] for f in os.listdir(pd) if f.endswith(".pack"))
+
+
+def case_foreign(acc: Acc, src, dst, kind, writer):
+    """The `kind` accelerator file of fixture `src` is copied into a clean copy of fixture `dst`."""
+    work = fresh_dir("c14f")
+    try:
+        hs, ps = _fixture(src, work, writer)
+        if writer == "g" and kind == "bitmap":
+            write_accel(ps, "bitmap", "g")
+        name_d, dag_d, salt_d, layout_d = FIXTURES[dst]
+        hd = history(dag_d, salt_d)
+        pd = os.path.join(work, "dst")
+        build_layout(hd, layout_d, pd)
+        extra = tuple(sorted(set(hs.ids) - set(hd.ids)))
+        r = _open(pd)
+        try:
+            R = battery(hd, r, extra_ids=extra)
+        finally:
+            r.close()
+        copied = 0
+        if kind == "cg":
+            os.makedirs(os.path.join(pd, "objects", "info"), exist_ok=True)
+            shutil.copy(os.path.join(ps, "objects", "info", "commit-graph"), os.path.join(pd, "objects", "info", "commit-graph"))
+            copied = 1
+        elif kind == "midx":
+            shutil.copy(os.path.join(ps, "objects", "pack", "multi-pack-index"), os.path.join(pd, "objects", "pack", "multi-pack-index"))
+            copied = 1
+        elif kind == "bitmap":
+            sp = [x for x in _packs(ps) if os.path.exists(os.path.join(ps, "objects", "pack", x + ".bitmap"))]
+            for k, dp in enumerate(_packs(pd)):
+                shutil.copy(os.path.join(ps, "objects", "pack", sp[k % len(sp)] + ".bitmap"),
+                            os.path.join(pd, "objects", "pack", dp + ".bitmap"))
+                copied += 1
+        if not copied:
+            raise HarnessError("nothing copied")
+        r = _open(pd)
+        try:
+            A = battery(hd, r, extra_ids=extra)
+        finally:
+            r.close()
+        _judge_untrusted(acc, "%s[%s]" % (kind, writer), "foreign", A, R,
+                         "%s file of fixture %r copied into fixture %r" % (kind, FIXTURES[src][0], name_d),
+                         rp(case_foreign, src, dst, kind, writer))
+    finally:
+        rmtree(work)
+
+
+def _judge_untrusted(acc, who, scen, A, R, what, replay):
+    """Foreign / damaged file: same answers, or a rejection (an exception that is not itself an
+    answer of the query); never a different answer."""
+    d = diff(R, A)
+    acc.count("configurations")
+    acc.count("queries", len(A))
+    if not d:
+        acc.outcome("%s:%s:same-answers" % (who, scen.split("@")[0]))
+        return
+    dev_fams = {q[0] for q, (r, g) in d.items() if not _rejection(g)}
+    dev_preds = {(q[0], predicate(r, g)) for q, (r, g) in d.items()}
+    seen = set()
+    rejected = False
+    for q, (r, g) in sorted(d.items(), key=lambda kv: repr(kv[0])):
+        fam = q[0]
+        if _rejection(g):
+            rejected = True
+            continue
+        pred = predicate(r, g)
+        masked = [p for p in DEPENDS.get(fam, ()) if p in dev_fams and p != fam] + [
+            p for p in SIBLING.get(fam, ()) if (p, pred) in dev_preds]
+        if masked:
+            acc.outcome("%s:%s:%s:%s:masked-by-primitive:%s" % (who, scen, fam, pred, masked[0]))
+            continue
+        key = _key("%s:%s:%s:%s" % (who, scen, fam, pred))
+        acc.outcome(key)
+        acc.count("violating_queries")
+        if key in seen:
+            continue
+        seen.add(key)
+        acc.violation(key, "%s | %s%r: answered %s, without the file %s" % (what, fam, q[1:], _short(g), _short(r)), replay)
+    if rejected:
+        acc.outcome("%s:%s:rejected-with-ordinary-error" % (who, scen.split("@")[0]))
+
+
+def _rejection(g):
+    return _is_exc(g) and not g.startswith("!!") and g[1:] not in REJECT_IS_ANSWER
+
+
+# --------------------------------------------------------------------------- E5 single-fault damage
+
+DAMAGE_FAMILIES = {
+    "cg": {"parents", "can_ff", "merge_base", "walk", "find_shallow", "get_depth", "graph_walker", "mof", "reach_commits"},
+    "midx": {"getitem", "contains", "get_raw", "iter", "mof", "parents"},
+    "bitmap": {"reach_commits", "reach_objects", "mof"},
+}
+DAMAGE_TIMEOUT = 30
+
+
+def chunk_regions(data, header_len):
+    """[(start, end, label)] of a chunk-format file (commit-graph: 8-byte header, multi-pack-index:
+    12-byte header; then (4-byte id, 8-byte offset) entries up to the zero id)."""
+    import struct
+
+    nchunks = data[6]
+    reg = [(0, header_len, "header"), (header_len, header_len + 12 * (nchunks + 1), "toc")]
+    toc = []
+    for i in range(nchunks + 1):
+        o = header_len + 12 * i
+        toc.append((data[o:o + 4], struct.unpack(">Q", data[o + 4:o + 12])[0]))
+    for (cid, off), (_, nxt) in zip(toc, toc[1:]):
+        reg.append((off, nxt, cid.decode("ascii", "replace")))
+    if toc[-1][1] < len(data):
+        reg.append((toc[-1][1], len(data), "trailer"))
+    return reg
+
+
+def damage_positions(kind, data):
+    """Positions explored (declared window) and the region table.  The 1024-byte fan-out tables are
+    reduced to the entries next to a bucket boundary that is actually used (plus first and last)."""
+    if kind in ("cg", "midx"):
+        reg = chunk_regions(data, 8 if kind == "cg" else 12)
+        pos = []
+        for a, b, name in reg:
+            if name == "OIDF":
+                keep = set()
+                prev = 0
+                for i in range(256):
+                    v = int.from_bytes(data[a + 4 * i:a + 4 * i + 4], "big")
+                    if v != prev or i in (0, 255):
+                        for j in (i - 1, i, i + 1):
+                            if 0 <= j < 256:
+                                keep.add(j)
+                    prev = v
+                for i in sorted(keep):
+                    pos.extend(range(a + 4 * i, a + 4 * i + 4))
+            else:
+                pos.extend(range(a, b))
+        return pos, reg
+    reg = [(0, 12, "header"), (12, 32, "pack-checksum"), (32, len(data), "body")]
+    return list(range(len(data))), reg
+
+
+def damage_descriptors(kind, data, bitflips):
+    pos, reg = damage_positions(kind, data)
+    keep = set(pos)
+    kinds = (MF.TRUNCATE, MF.BYTESET) + ((MF.BITFLIP,) if bitflips else ())
+    return [d for d in MF.descriptors(data, kinds) if d[1] in keep], reg
+
+
+def _damage_target(work, fixture, kind, writer):
+    h, p = _fixture(fixture, work, writer)
+    if writer == "g" and kind == "bitmap":
+        write_accel(p, "bitmap", "g")
+    if kind == "cg":
+        rel = "objects/info/commit-graph"
+    elif kind == "midx":
+        rel = "objects/pack/multi-pack-index"
+    else:
+        rel = "objects/pack/" + [x for x in _packs(p) if os.path.exists(os.path.join(p, "objects", "pack", x + ".bitmap"))][0] + ".bitmap"
+    return h, p, rel
+
+
+class _Alarm:
+    def __enter__(self):
+        def onalarm(*_):
+            raise _Timeout()
+
+        self.old = signal.signal(signal.SIGALRM, onalarm)
+        signal.setitimer(signal.ITIMER_REAL, DAMAGE_TIMEOUT)
+
+    def __exit__(self, *a):
+        signal.setitimer(signal.ITIMER_REAL, 0)
+        signal.signal(signal.SIGALRM, self.old)
+
+
+_DMG = {}
+
+
+def case_damage(acc: Acc, fixture, kind, writer, desc):
+    """One single-fault mutant of one accelerator file of a fixture repository."""
+    desc = tuple(desc)
+    k = (fixture, kind, writer)
+    if _DMG.get("k") != k or _DMG.get("pid") != os.getpid():
+        if _DMG.get("work"):
+            rmtree(_DMG["work"])
+        work = fresh_dir("c14d")
+        h, p, rel = _damage_target(work, fixture, kind, writer)
+        data = open(os.path.join(p, rel), "rb").read()
+        snap = SS.snapshot(p)
+        # reference: the same repository with the file removed
+        q = os.path.join(work, "plain")
+        SS.restore(snap, q)
+        os.unlink(os.path.join(q, rel))
+        r = _open(q)
+        try:
+            R = battery(h, r, DAMAGE_FAMILIES[kind])
+        finally:
+            r.close()
+        # the intact file must not change anything either (else the damage verdicts mean nothing)
+        r = _open(p)
+        try:
+            A0 = battery(h, r, DAMAGE_FAMILIES[kind])
+        finally:
+            r.close()
+        _DMG.clear()
+        _DMG.update(k=k, pid=os.getpid(), work=work, h=h, p=p, rel=rel, data=data, R=R, A0=A0,
+                    reg=damage_positions(kind, data)[1])
+    g = _DMG
+    path = os.path.join(g["p"], g["rel"])
+    mutant = MF.apply(g["data"], desc)
+    with open(path, "wb") as f:
+        f.write(mutant)
+    region = MF.label(desc, g["reg"])
+    acc.count("damage_mutants")
+    try:
+        with _Alarm():
+            r = _open(g["p"])
+            try:
+                A = battery(g["h"], r, DAMAGE_FAMILIES[kind])
+            finally:
+                r.close()
+    except _Timeout:
+        acc.outcome("%s[%s]:damaged:hang" % (kind, writer))
+        acc.violation(_key("%s[%s]:damaged@%s:any:no-answer-within-%ds" % (kind, writer, region, DAMAGE_TIMEOUT)),
+                      "fixture %r %s %r: battery did not finish" % (FIXTURES[fixture][0], g["rel"], desc),
+                      rp(case_damage, fixture, kind, writer, desc))
+        return
+    finally:
+        with open(path, "wb") as f:
+            f.write(g["data"])
+    # deviations the intact file shows as well are not caused by the damage
+    ref = dict(g["R"])
+    for q_, v in g["A0"].items():
+        if v != ref[q_] and A.get(q_) == v:
+            ref[q_] = v
+    _judge_untrusted(acc, "%s[%s]" % (kind, writer), "damaged@%s" % region, A, ref,
+                     "fixture %r, %s with %s at byte %d (%s)" % (FIXTURES[fixture][0], g["rel"], desc[0], desc[1], region),
+                     rp(case_damage, fixture, kind, writer, desc))
+
+
+# --------------------------------------------------------------------------- task plumbing
+
+
+def work(task):
+    kind = task[0]
+    acc = Acc()
+    devnull = os.open(os.devnull, os.O_WRONLY)
+    old = os.dup(2)
+    os.dup2(devnull, 2)  # dulwich logs "Ignoring bitmap ..." warnings and ResourceWarnings to stderr
+    try:
+        if kind == "hist":
+            _, dag, tier, layouts = task
+            eval_history(acc, dag, tier, layouts)
+        elif kind == "foreign":
+            for args in task[1]:
+                case_foreign(acc, *args)
+        elif kind == "damage":
+            _, fixture, akind, writer, descs = task
+            for d in descs:
+                case_damage(acc, fixture, akind, writer, d)
+        else:
+            raise AssertionError(kind)
+    finally:
+        os.dup2(old, 2)
+        os.close(old)
+        os.close(devnull)
+    return acc
+
+
+QUICK_N4 = (
+    ((), (0,), (1,), (2,)),  # chain
+    ((), (0,), (0,), (1, 2)),  # diamond
+    ((), (), (), (0, 1, 2)),  # octopus of three roots
+    ((), (0,), (0, 1), (0, 1, 2)),  # densest
+    ((), (), (0, 1), (2,)),  # merge of two roots, then a commit
+    ((), (0,), (1,), (1,)),  # fork at the second commit
+)
+
+
+def run(ctx):
+    import warnings
+
+    warnings.simplefilter("ignore")
+    q = ctx.quick
+    tier = ctx.tier
+    J = ctx.jobs
+    bounds = {}
+    # ---- histories
+    small = [d for n in (1, 2, 3) for d in E.dags(n, 3)]
+    if q:
+        n4 = list(QUICK_N4)
+        bounds["histories"] = "all %d DAGs with n<=3 commits (<=3 parents) + %d named n=4 shapes" % (len(small), len(n4))
+    else:
+        n4 = list(E.dags(4, 3))
+        if len(n4) != E.dag_count(4, 3):
+            raise HarnessError("enumerator count mismatch")
+        bounds["histories"] = "all %d DAGs with n<=3 and all %d DAGs with n=4 commits (<=3 parents)" % (len(small), len(n4))
+    tasks = []
+    for d in small + n4:
+        if len(d) >= 3:
+            # one task per layout group so that the big histories spread over the workers
+            for L in MAIN_LAYOUTS:
+                tasks.append(("hist", d, tier, (L,)))
+            tasks.append(("hist", d, tier, EXTRA_LAYOUTS))
+        else:
+            tasks.append(("hist", d, tier, MAIN_LAYOUTS + EXTRA_LAYOUTS))
+    bounds["layouts"] = list(MAIN_LAYOUTS + EXTRA_LAYOUTS)
+    bounds["accelerator subsets"] = ("fresh: all 15 non-empty subsets of {cg, midx, bitmap, packed-refs} by dulwich's writers + every "
+                                     "writer variant alone %r + all four by C git; stale: singles + full sets x %d steps; live: singles%s"
+                                     % (WRITERS, len(STEPS), "" if q else " + full set + C-git singles"))
+    bounds["steps"] = list(STEPS)
+    # ---- foreign
+    n = len(FIXTURES)
+    pairs = [(s, d, k, w) for w in (("d",) if q else ("d", "g")) for s in range(n) for d in range(n) if s != d
+             for k in (("cg", "midx", "bitmap") if w == "d" or True else ())]
+    ftasks = [("foreign", part) for part in split(ctx.order(pairs), max(1, min(len(pairs), J * 2)))]
+    bounds["foreign"] = "%d ordered pairs of %d fixtures x {cg, midx, bitmap} x writers %s" % (n * (n - 1), n, "dulwich" if q else "dulwich, C git")
+    # ---- damage
+    dtasks = []
+    dcount = {}
+    targets = [(3, "cg", "d"), (3, "midx", "d"), (3, "bitmap", "d")]
+    if not q:
+        targets += [(2, "cg", "g"), (2, "midx", "g"), (2, "bitmap", "g"), (2, "cg", "d"), (2, "midx", "d")]
+    dwork = fresh_dir("c14plan")
+    for fx, kind, writer in targets:
+        h, p, rel = _damage_target(dwork, fx, kind, writer)
+        data = open(os.path.join(p, rel), "rb").read()
+        descs, _reg = damage_descriptors(kind, data, bitflips=not q)
+        dcount["%s[%s]@%s (%d bytes)" % (kind, writer, FIXTURES[fx][0], len(data))] = len(descs)
+        for part in MF.chunks(ctx.order(descs), max(1, min(len(descs), J if q else 2 * J))):
+            dtasks.append(("damage", fx, kind, writer, part))
+    rmtree(dwork)
+    bounds["damage"] = {"mutants": dcount, "kinds": "every truncation + every byte set to 00/FF/+1/-1" + ("" if q else " + every single-bit flip"),
+                        "window": "whole file except fan-out entries that are not adjacent to a used bucket boundary"}
+
+    tasks = sorted(tasks, key=lambda t: -len(t[1]))  # big histories first (load balance); order is seed-permuted below
+    alltasks = ctx.order(tasks) if ctx.seed else tasks
+    pmap_acc(work, alltasks, ctx.acc, jobs=ctx.jobs)
+    ctx.acc.note("t_after_histories", round(ctx.elapsed(), 1))
+    pmap_acc(work, ftasks, ctx.acc, jobs=ctx.jobs)
+    ctx.acc.note("t_after_foreign", round(ctx.elapsed(), 1))
+    pmap_acc(work, dtasks, ctx.acc, jobs=ctx.jobs)
+    ctx.acc.note("t_after_damage", round(ctx.elapsed(), 1))
+
+    classes = ctx.acc.classes
+    n_ = ctx.acc.n
+    ctx.level = "exploration"
+    ctx.coverage.update(
+        evaluations=n_.get("queries", 0),
+        states=n_.get("configurations", 0),
+        distinct_nontrivial=len([c for c in classes if not c.endswith(":same") and not c.endswith(":same-answers")]),
+        outcome_classes=dict(sorted(classes.items())),
+        rule=(
+            "E4/E3/E5 bounded-exhaustive: every history x layout x accelerator configuration x continuation step x mode "
+            "of the declared plan is built as a real repository (snapshot/restore of directories), the accelerators are "
+            "written by dulwich's public writers or by C git, and a fixed battery of queries is answered by the real "
+            "dulwich code; each answer is compared with the answer on the same history stored without any acceleration "
+            "data. evaluations = individual query answers compared; states = configurations (repository states x mode) "
+            "interrogated; distinct_nontrivial = outcome classes other than 'same answers'."
+        ),
+        exhaustive=True,
+        bounds=bounds,
+    )
+    ctx.assumptions += [
+        "the reference run (loose objects, loose refs, no acceleration file, freshly opened Repo) is validated against a trivial "
+        "model (dict of refs, explicit DAG, known object set) on every history and step; a disagreement is a HarnessError",
+        "commit timestamps increase with the topological numbering (clock effects are property C13's business)",
+        "refs.get_peeled() may answer None ('not cached'); only a non-None answer is compared (with the repo-level get_peeled)",
+        "foreign / damaged files: an exception other than KeyError counts as 'rejected'; KeyError is the 'not there' answer of a lookup",
+        "live mode: the baseline is the same long-lived-Repo scenario without accelerators (what a long-lived reader sees after "
+        "another process repacks is property C10's business); the inode of a replaced packed-refs file is pinned (DESIGN 1.3 rule 1)",
+        "deviations of a derived query family are attributed to the primitive family (lookup, membership, parents, ref values) "
+        "that deviates in the same run; deviations already present with a fresh accelerator are not repeated for its stale scenarios",
+    ]
+    # ---- vacuity guard
+    need = [
+        "cg:fresh:same", "midx:fresh:same", "prefs:stale-refs:same", "none:stale-shrink:same",
+    ]
+    absent = [c for c in need if c not in classes]
+    if absent:
+        raise HarnessError("vacuity guard: outcome classes never observed: %r" % absent)
+    if not any(c.startswith("writer-produced-nothing") for c in classes):
+        raise HarnessError("vacuity guard: expected the midx writer to produce nothing for loose layouts")
+    if n_.get("damage_mutants", 0) == 0 or n_.get("histories", 0) == 0:
+        raise HarnessError("vacuity guard: a phase did not run")
+
+
+def replay(ctx, obj):
+    return replay_generic(sys.modules[__name__], ctx, obj)
